@@ -706,9 +706,16 @@ func filterCmd(args []string) error {
 			}
 			first := strings.Split(*prefix, "/")[0]
 			outside = uniq([]string{*prefix, *prefix + "ey", *prefix + "-x", first + "0", "other/" + cat.Repos[0], cat.Repos[0]})
+			var really []string
 			for _, o := range outside {
 				backend[o] = true
+				if y, ok := strings.CutPrefix(o, *prefix+"/"); ok {
+					view[y] = true // under the prefix after all (a one-letter prefix, say)
+				} else {
+					really = append(really, o)
+				}
 			}
+			outside = really
 		} else {
 			for _, r := range cat.Repos {
 				backend[r] = true
@@ -785,6 +792,12 @@ func filterCmd(args []string) error {
 						backend[*prefix+"/"+nm] = true
 					}
 				}
+			}
+		}
+		// the view is exactly what lies under the prefix
+		for r := range backend {
+			if y, ok := strings.CutPrefix(r, *prefix+"/"); ok {
+				view[y] = true
 			}
 		}
 		cat.Repos = sortedKeys(view)
